@@ -193,6 +193,8 @@ func (t *domainRoutingTracker) syncOwner(
 		}
 	}
 
+	verifObserveDomainRoutingBatch(keysToUpdate, valuesToUpdate, keysToDelete)
+
 	if m != nil {
 		if len(keysToUpdate) > 0 {
 			if _, err := BpfMapBatchUpdate(m, keysToUpdate, valuesToUpdate, &ebpf.BatchOptions{
